@@ -244,10 +244,32 @@ class AbstractTifa:
             return isinstance(o, Obj) and any(isinstance(x, str) and o._name == x for x in ts)
         fd.calls['isinstance'] = _isinstance
 
-        def _function_type(name, definition=None, **k):
-            return Obj('FunctionType', name=name, definition=definition)
+        ft_cls = self.ctx.repo.module('pedal.types.new_types').cls('FunctionType')
+        ft_init = [m for m in ft_cls.body if isinstance(m, ast.FunctionDef) and m.name == '__init__']
+
+        def _function_type(name='*Anonymous', definition=None, returns=None, the_self=None):
+            # the real constructor, interpreted (so that the_self, returns, ... are what pedal makes them)
+            o = Obj('FunctionType')
+            o.attrs['__open__'] = True
+            if ft_init:
+                sup = Obj('super')
+                sup.attrs['method:__init__'] = lambda *a, **k: None
+                fd2 = FD(max_steps=20000, calls={'super': lambda *a: sup})
+                try:
+                    fd2.call_function(ft_init[0], [name, definition, returns, the_self], bound_self=o)
+                    return o
+                except (Inconclusive, Raised):
+                    pass
+            o.attrs.update(name=name, definition=definition, returns=returns, the_self=the_self)
+            return o
         fd.calls['FunctionType'] = _function_type
-        fd.calls['NoneType'] = lambda: Obj('NoneType')
+
+        def _none_type():
+            o = Obj('NoneType')
+            o.attrs['method:clone_mutably'] = _none_type
+            o.attrs['method:clone'] = _none_type
+            return o
+        fd.calls['NoneType'] = _none_type
         fd.calls['NewScope'] = lambda *a, **k: fd.instantiate('NewScope', self.scope_methods, a, k, closed=False)
         fd.calls['State'] = lambda *a, **k: fd.instantiate('State', self.state_methods, a, k, closed=False)
         fd.calls['Identifier'] = lambda *a, **k: fd.instantiate('Identifier', self.ident_methods, a, k, closed=False)
